@@ -352,6 +352,13 @@ func Run(c *hx.Ctx) {
 		h2Emit(c, "C09", uint32(mr), ops, obs, w)
 		return
 	}
+	if len(c.Args) == 5 && c.Args[0] == "win" {
+		mc, _ := strconv.Atoi(c.Args[2])
+		mr, _ := strconv.Atoi(c.Args[3])
+		ops, obs, w := winRunOps(c, c.Args[1], uint32(mc), uint32(mr), scripted(strings.Split(c.Args[4], ",")))
+		winEmit(c, "C09", c.Args[1], uint32(mc), uint32(mr), ops, obs, w)
+		return
+	}
 	if len(c.Args) == 4 {
 		mc, _ := strconv.Atoi(c.Args[1])
 		mr, _ := strconv.Atoi(c.Args[2])
@@ -372,6 +379,13 @@ func Run(c *hx.Ctx) {
 				mc, _ := strconv.Atoi(t[3])
 				mr, _ := strconv.Atoi(t[4])
 				runScript(c, t[2], uint32(mc), uint32(mr), strings.Split(t[5], ","))
+				c.Count("corpus")
+			}
+			if len(t) >= 6 && t[0] == "C09" && t[1] == "win" {
+				mc, _ := strconv.Atoi(t[3])
+				mr, _ := strconv.Atoi(t[4])
+				ops, obs, w := winRunOps(c, t[2], uint32(mc), uint32(mr), scripted(strings.Split(t[5], ",")))
+				winEmit(c, "C09", t[2], uint32(mc), uint32(mr), ops, obs, w)
 				c.Count("corpus")
 			}
 			if len(t) >= 4 && t[0] == "C09" && t[1] == "h2p" {
@@ -404,6 +418,8 @@ func Run(c *hx.Ctx) {
 			}
 		}
 	}
+	// the close window of OnDestroyStream and the whole ledger (win.go)
+	RunWin(c, "C09", c.N(160, 1500))
 	// the multiplex pool (mux.go), one-way requests included
 	runMux(c)
 	// the HTTP/2 pool against the scripted HTTP/2 upstream (h2p.go)
